@@ -128,7 +128,7 @@ fn main() {
     let tier = args[2].clone();
     let seed: u64 = args[3].parse().unwrap_or(0);
     let outdir = args[4].clone();
-    std::panic::set_hook(Box::new(|_| {}));
+    if std::env::var("HARNESS_VERBOSE_PANIC").is_err() { std::panic::set_hook(Box::new(|_| {})); }
     std::fs::create_dir_all(&outdir).unwrap();
     let _ = std::fs::remove_file(format!("{}/hang.json", outdir));
     start_watchdog(outdir.clone(), if tier == "thorough" { 1800 } else { 180 });
@@ -154,7 +154,17 @@ fn main() {
         all_lines = h.lines;
         all_records = h.records;
     } else {
-        let suites: Vec<&'static str> = if thorough { vec!["cl1024", "cl2048"] } else { vec!["cl1024"] };
+        // quick tier: the default suite; for the two properties about blinding LENGTHS (which differ per suite)
+        // also CL2048 and CL3072 with assembled keys (gen::keygen_light). Thorough: CL1024 and CL2048 with real
+        // key generation, plus CL3072 with assembled keys for those two properties.
+        let length_props = prop == "C17" || prop == "C19";
+        let suites: Vec<&'static str> = if thorough {
+            if length_props { vec!["cl1024", "cl2048", "cl3072"] } else { vec!["cl1024", "cl2048"] }
+        } else if length_props {
+            vec!["cl1024", "cl2048", "cl3072"]
+        } else {
+            vec!["cl1024"]
+        };
         for suite in suites {
             let mut h = H::new(suite, seed ^ fnv(&prop) ^ fnv(suite).rotate_left(13), thorough, next_id);
             gen::run(&mut h, &prop);
